@@ -589,3 +589,20 @@ def run(repo, rep, tier):  # noqa: F811 -- round-6 remedies, batch 3
 _ADDR6D = ' R17.14: the Literal packer / unpacker render every literal value from its own type (no memo across iterations).'
 EXPLANATION += _ADDR6D
 LEVEL_TEXT += _ADDR6D
+
+
+_run_before_r7tp = run
+
+
+def run(repo, rep, tier):  # noqa: F811 -- round 7: type-level helper contracts borrowed from C02
+    _run_before_r7tp(repo, rep, tier)
+    if getattr(rep, "borrowed", False):
+        return
+    from ..core import typepreds as _tp7
+    _tp7.model_agreement(repo, rep, "R02.8", tier)
+    _tp7.reference_cases(repo, rep, "R02.9")
+
+
+_ADDR7TP = " Borrowed: R02.8 / R02.9 (the type predicates and type-level helpers, interpreted from their own source over the catalogue types and a reference table, answer as the dispatch model and the documentation say)."
+EXPLANATION += _ADDR7TP
+LEVEL_TEXT += _ADDR7TP
